@@ -41,18 +41,18 @@ def auto_detect_input(prg: Iterable[AST]) -> list[Predicate]:
     derivable_preds: set[Predicate] = set()
     in_body: dict[Predicate, set[int]] = defaultdict(set)
     in_head: dict[Predicate, set[int]] = defaultdict(set)
-    for index, stm in enumerate(prg):
-        all_preds.update([pred.pred for pred in predicates(stm)])
-        for pred in headderivable_predicates(stm):
-            derivable_preds.add(pred.pred)
-            in_head[pred.pred].add(index)
-        for pred in chain(body_predicates(stm, SIGNS), minimize_predicates(stm, SIGNS)):
-            in_body[pred.pred].add(index)
+    for index, pooled in enumerate(prg):
+        for stm in pooled.unpool():  # the atoms of p(1;2) are only visible after unpooling
+            all_preds.update([pred.pred for pred in predicates(stm)])
+            for pred in headderivable_predicates(stm):
+                derivable_preds.add(pred.pred)
+                in_head[pred.pred].add(index)
+            for pred in chain(body_predicates(stm, SIGNS), minimize_predicates(stm, SIGNS)):
+                in_body[pred.pred].add(index)
 
-    input_ = list(sorted(all_preds - derivable_preds))
-    for p in all_preds:
-        if in_body[p] == in_head[p]:
-            input_.append(p)
+    inputs = all_preds - derivable_preds
+    inputs.update(p for p in all_preds if in_body[p] == in_head[p])
+    input_ = list(sorted(inputs))
     for p in input_:
         log.info(f"Detected input predicate: {p.name}/{p.arity}")
     return input_
